@@ -177,3 +177,62 @@ func VH_C12_MetadataCache(N, Q int) {
 	vhReach("c12-metadata-cache")
 }
 
+
+// broker endpoint change: after update() with metadata in which a broker id moved to another host or port,
+// requests for that broker go to a connection group for the new endpoint (the old group's idle connections are
+// closed, its queued channel is no longer used).
+func VH_C12_BrokerEndpointMove(what int) {
+	vp := vhNewPool(2, 1)
+	moved := vp.ids[vhChoose("moved_broker", 2)]
+	md := &meta.Response{ControllerID: vp.ctrlID}
+	for i, id := range vp.ids {
+		b := meta.ResponseBroker{NodeID: id, Host: "h", Port: 9092 + int32(i)}
+		if id == moved {
+			switch what {
+			case 0:
+				b.Port = 7000
+			case 1:
+				b.Host = "other"
+			case 2:
+				b.Rack = "r2"
+			}
+		}
+		md.Brokers = append(md.Brokers, b)
+	}
+	md.Topics = []meta.ResponseTopic{{Name: "t", Partitions: []meta.ResponsePartition{{PartitionIndex: 0, LeaderID: moved}}}}
+	old := vp.p.conns[moved]
+	vp.p.update(context.Background(), md, nil)
+	g := vp.p.conns[moved]
+	vhAssert(g != nil, "moved-broker-still-has-a-group")
+	want := "h:7000"
+	if what == 1 {
+		want = "other:" + vhItoa(vhPortOf(vp, moved))
+	}
+	if what != 2 {
+		vhAssert(g.addr.String() == want, "group-dials-the-new-endpoint")
+		vhAssert(g != old, "group-replaced-when-the-endpoint-changes")
+		vhAssert(old.closed, "old-group-closed")
+	}
+	vhReach("c12-endpoint-move")
+}
+
+func vhPortOf(vp *vhPool, id int32) int {
+	for i, x := range vp.ids {
+		if x == id {
+			return 9092 + i
+		}
+	}
+	return 0
+}
+
+func vhItoa(n int) string {
+	if n == 0 {
+		return "0"
+	}
+	var b []byte
+	for n > 0 {
+		b = append([]byte{byte('0' + n%10)}, b...)
+		n /= 10
+	}
+	return string(b)
+}
